@@ -214,6 +214,10 @@ def run_e2(job):
                           "where": {"handling": "baseline", "moment": moment}, "sig": f"signal-lost-baseline:{moment}"})
             continue
         points += len(snaps)
+        sig_pos = next(i for i, t in enumerate(final.trace) if t.startswith("signal:"))
+        # an image contains the send iff the send precedes the action in flight when the image was taken
+        sent_idx = next((i for i, sn in enumerate(snaps) if sn.tlen > sig_pos), len(snaps))
+        eng.budget_at = lambda sn, _p=sig_pos: {"signal": 0} if sn.tlen > _p else None
         for i, s in enumerate(snaps):
             for order in ("restart-first", "expire-first"):
                 # the signal budget is spent iff the crash image already contains it
@@ -224,7 +228,7 @@ def run_e2(job):
                 full = pre + post
                 resumes = sum(1 for e in full if e["stage"] == "G" and e["step"] == "resumed")
                 wfst = f2.view.wf["status"]
-                sent_before = any(sn.action.startswith("signal:") for sn in snaps[: i + 1])
+                sent_before = i >= sent_idx
                 inflight = s.action.startswith("d:RunTask:G")
                 where = {"moment": moment, "crash_after_commit": s.k, "step": s.step, "handling": s.action, "order": order}
                 if sent_before:
@@ -232,6 +236,12 @@ def run_e2(job):
                         viols.append({"kind": "signal-lost-across-crash", "wf": wfst, "resumes": resumes,
                                       "stage": f2.view.stages["G"]["status"], "where": where,
                                       "sig": f"signal-lost-after-crash:{diagnose(f2.view)}"})
+                    elif f2.view.stages["G"]["ctx"].get("_buffered_signals"):
+                        # one signal was sent and has been consumed: a copy left in the buffer would resume a later
+                        # suspension a second time
+                        viols.append({"kind": "consumed-signal-still-buffered-after-crash",
+                                      "buffer": f2.view.stages["G"]["ctx"].get("_buffered_signals"), "where": where,
+                                      "sig": "buffer-not-empty-after-crash"})
                 else:
                     if f2.view.stages["G"]["status"] not in ("SUSPENDED",) and wfst != "SUCCEEDED":
                         # signal not yet sent at the crash: the gate must end up durably SUSPENDED (still waiting)
